@@ -1,6 +1,7 @@
 //! Registry: which scenario serves which property, plan generation, execution, shrinking.
 
 use crate::harness::{self, Outcome, RunStats};
+use crate::scen_client::{self, ClientPlan};
 use crate::scen_disk::{self, DiskPlan};
 use crate::scen_wire::{self, WirePlan};
 use serde::{Deserialize, Serialize};
@@ -11,6 +12,7 @@ use simcore::Rng;
 pub enum Plan {
     Wire(WirePlan),
     Disk(DiskPlan),
+    ClientLib(ClientPlan),
 }
 
 pub const WIRE_PROPS: &[&str] = &[
@@ -21,6 +23,7 @@ pub const DISK_PROPS: &[&str] = &["C09", "C10", "C18"];
 pub fn properties() -> Vec<&'static str> {
     let mut v: Vec<&'static str> = WIRE_PROPS.to_vec();
     v.extend(DISK_PROPS);
+    v.push("C20");
     v.sort();
     v
 }
@@ -28,6 +31,9 @@ pub fn properties() -> Vec<&'static str> {
 pub fn gen_plan(property: &str, rng: &mut Rng, thorough: bool) -> Option<Plan> {
     if WIRE_PROPS.contains(&property) {
         return Some(Plan::Wire(scen_wire::gen_plan(rng, property, thorough)));
+    }
+    if property == "C20" {
+        return Some(Plan::ClientLib(scen_client::gen_plan(rng, thorough)));
     }
     if DISK_PROPS.contains(&property) {
         return Some(Plan::Disk(scen_disk::gen_plan(rng, property, thorough)));
@@ -61,6 +67,10 @@ fn run_plan_here(plan: &Plan, seed: u64, verbose: bool) -> (Outcome, RunStats) {
             harness::run_sim(seed, &p.knobs, verbose, move || scen_wire::run(p2))
         }
         Plan::Disk(p) => scen_disk::run(p, seed, verbose),
+        Plan::ClientLib(p) => {
+            let p2 = p.clone();
+            harness::run_sim(seed, &p.knobs, verbose, move || scen_client::run(p2))
+        }
     }
 }
 
@@ -68,6 +78,7 @@ pub fn shrink(plan: &Plan) -> Vec<Plan> {
     match plan {
         Plan::Wire(p) => scen_wire::shrink(p).into_iter().map(Plan::Wire).collect(),
         Plan::Disk(p) => scen_disk::shrink(p).into_iter().map(Plan::Disk).collect(),
+        Plan::ClientLib(p) => scen_client::shrink(p).into_iter().map(Plan::ClientLib).collect(),
     }
 }
 
@@ -76,6 +87,7 @@ pub fn budget(property: &str, thorough: bool) -> (u64, u64) {
     // (runs, wall-clock cap in seconds)
     let quick = match property {
         "C10" => 400,
+        "C20" => 6_000,
         "C11" => 5_000,
         "C12" => 3_000,
         "C09" => 6_000,
@@ -110,6 +122,7 @@ pub fn rule_text(property: &str) -> &'static str {
         "C17" => "adversarial sessions (garbage, hostile orders) next to a well-behaved witness session, debug assertions on; non-trivial: >=3 answered requests; distinct = distinct trace hashes",
         "C11" => "wire workload (writes, deletes, imports, sessions with grave goods / last wills opening and ending) on a real leader; 1-3 real followers join over the simulated TCP network at random points, some are killed and rejoin, some are partitioned for a while; after a marker write is visible on a follower its user keys, versions and registrations must equal the leader's; non-trivial: >=3 accepted changes; distinct = distinct trace hashes",
         "C12" => "as C11, then the leader is killed, the follower is stopped (shutdown path) or killed and a new instance is started on its directory with the role flags the orchestrator passes; non-trivial: the old leader held registrations; distinct = distinct trace hashes",
+        "C20" => "1-3 real client-library instances (real connect, command loop, callbacks, SendBuffer, update) on the simulated Unix socket, 1-8 tasks per instance on cloned handles, each in its own key namespace with unique values, shared counter through update(), shared spub stream, set_later/publish_later bursts, all four unsubscribe variants; non-trivial: an instance with >=2 tasks and >=6 calls; distinct = distinct trace hashes",
         "C09" => "fault-free persistence cycles (periodic flush then kill, or clean shutdown) and directories laid out by the harness in schema v1/v2/v3 in both toggle states, damaged primary slots; non-trivial: the snapshot holds a CAS entry or a registration; distinct = distinct trace hashes",
         "C10" => "histories of 2-5 flushes with distinct states; for one flush of each history EVERY file-system operation (plus torn variants of *.tmp writes) is used as crash point, one simulated run each, followed by a restart; evaluations counts crash-point runs; non-trivial: crash landed inside a flush that had a completed predecessor; distinct = distinct trace hashes of histories",
         "C18" => "ReDB backend: 1-25 operations, node killed between two scheduler turns of the writer task (or stopped cleanly), database file copied, new instance; non-trivial: >=3 prefixes; distinct = distinct trace hashes",
